@@ -770,3 +770,48 @@ def rule_V4(ctx, rid='V4'):
            'the matrix B is not the Cholesky factor of A_inv: contains() does not test the '
            'ellipsoid the construction points were enclosed in')
     return n
+
+
+def rule_V5(ctx, rid='V5'):
+    """Who rejects: the union proposes from member i with probability ~ exp(log_v_all[i]), the
+    member's FULL closed-form volume, and itself rejects (and counts in n_reject) what falls
+    outside the unit cube or is claimed by several members.  That accounting is only right if a
+    member hands back its raw draws: a member sampler that redraws or filters until the points
+    lie in the cube is uniform on a *smaller* region than the volume it reports."""
+    ctx.rule(rid, 'member samplers are rejection-free: no data-dependent loop, no comparison of '
+             'the drawn coordinates with the cube bounds, no row filtering inside Ellipsoid / '
+             'UnitCube / UnitCubeEllipsoidMixture.sample (rejection and its counters live in the '
+             'union)')
+    import ast as _ast
+    from .exprs import walk_no_nested, unparse, dotted
+    n = 0
+    for q in ('Ellipsoid.sample', 'UnitCube.sample', 'UnitCubeEllipsoidMixture.sample'):
+        if not ctx.program.has_func(q):
+            continue
+        f = ctx.program.func(q)
+        loops = [x for x in walk_no_nested(f.node) if isinstance(x, _ast.While)]
+        cmps = [x for x in walk_no_nested(f.node) if isinstance(x, _ast.Compare) and
+                any(isinstance(c, _ast.Constant) and c.value in (0, 1, 0.0, 1.0) and
+                    not isinstance(c.value, bool) for c in [x.left] + x.comparators) and
+                not any(isinstance(y, _ast.Call) and dotted(y.func) == 'len'
+                        for y in _ast.walk(x))]
+        # comparisons that belong to option handling (`n_points`, `is None`) do not involve
+        # array-valued operands; keep those that mention a local array
+        arrs = {t.id for st in walk_no_nested(f.node) if isinstance(st, _ast.Assign)
+                for t in st.targets if isinstance(t, _ast.Name)}
+        cmps = [x for x in cmps if any(isinstance(y, _ast.Name) and y.id in arrs
+                                       for y in _ast.walk(x))]
+        ok = not loops and not cmps
+        n += 1
+        bad = loops[0] if loops else (cmps[0] if cmps else None)
+        ctx.ob(rid, '%s:raw-proposals' % q, ok, f.where(bad) if bad is not None else f.where(),
+               'the member returns its raw draws; rejection and its counters live in the union'
+               if ok else
+               '`%s` makes the member redraw / filter its own proposals against the cube: it is '
+               'then uniform on the part of the ellipsoid inside the cube, while the union still '
+               'weights it by the full ellipsoid volume and never sees a rejection - members cut '
+               'by a cube face are over-represented and the reported volume includes the part '
+               'outside the cube' % unparse(bad)[:60].replace('\n', ' '))
+    ctx.require(n >= 3, 'V5: member samplers not found')
+    return n
+
